@@ -122,7 +122,7 @@ let gmap_ops = [| "add_node"; "remove_node"; "add_edge"; "remove_edge"; "clear";
 let all_tags = [| "bool"; "err"; "panic"; "idx"; "unit"; "counts"; "row"; "wrow"; "erefs"; "nw"; "OUT-OF-FUEL"; "nat";
                   "notsorted"; "none"; "pair"; "eidxs"; "nodes"; "out"; "in"; "has"; "limit"; "some";
                   "nb"; "nbo"; "nbi"; "ed"; "edo"; "edi"; "gn"; "ge"; "el"; "nbu"; "exto"; "exti"; "elimit"; "oob";
-                  "walk"; "econn"; "missed"; "vac"; "free"; "seq"; "events"; "cycle"; "comp"; "cidx"; "scores"; "path"; "dist"; "pred"; "fw"; "fwp"; "mse"; "msn" |]
+                  "walk"; "econn"; "missed"; "vac"; "free"; "seq"; "events"; "cycle"; "comp"; "cidx"; "scores"; "path"; "dist"; "pred"; "fw"; "fwp"; "mse"; "msn"; "bytes"; "dec"; "text" |]
 let view_ops = [| "node"; "out"; "in"; "neighbors_edges_mismatch"; "erefs"; "_5"; "_6"; "_7"; "_8"; "_9";
                   "dfs"; "dfs_moveto"; "dfs_reset"; "dfspost"; "bfs"; "topo"; "topo_with_initials"; "dfsvisit"; "dfspost_moveto"; "_19";
                   "connected_components"; "is_cyclic_undirected"; "toposort"; "toposort2"; "is_cyclic_directed"; "has_path";
@@ -148,6 +148,8 @@ let () =
    | "C01" -> run_generic graph_ops all_tags GraphIO.run_case lines oc
    | "C02" -> run_generic stable_ops all_tags StableIO.run_case lines oc
    | "C08" | "C09" | "C10" | "C11" | "C12" -> run_generic view_ops all_tags AlgoIO.run_case lines oc
+   | "C18g6" -> run_generic [| "g6"; "g6d" |] all_tags Graph6M.run_case lines oc
+   | "C18dot" -> run_generic [| "dn"; "de"; "render" |] all_tags DotM.run_case lines oc
    | "C03" -> run_generic gmap_ops all_tags GraphMapM.run_case lines oc
    | "C04" -> run_generic mg_ops mg_tags MatrixM.run_case lines oc
    | "C05csr" -> run_generic csr_ops csr_tags CsrM.run_case lines oc
